@@ -47,6 +47,15 @@ def judge(doc, fmt, render_kw=None):
         if not ok:
             fails.append(("separation", f"{a} and {b} are separated by a paragraph/cell/break/tab boundary in the source but adjacent in the output"))
             break
+    if ((render_kw or {}).get("opts") or {}).get("run_space"):
+        for a, b in sorted(model.run_pairs(doc)):
+            for where in (text, tab_text):
+                if a in where and b in where and where.find(b) > where.find(a) and not separated(where, a, b):
+                    fails.append(("separation", f"{a} and {b} are separated by a blank in the source paragraph but adjacent in the output"))
+                    break
+            else:
+                continue
+            break
     if e.table_only:
         fails += [("table-" + c, d) for c, d in check_sequence(e.table_only, tab_text, forbid_x=False)]
     if not any(b["k"] == "math" for u in doc["units"] for b in model.walk_blocks(u["blocks"])):
